@@ -184,6 +184,8 @@ def r12_2(ctx, m):
             oploop = l
     if oploop is None:
         raise AnalysisError("R12.2", wf.where(), "cannot find the loop over the aligner's CIGAR tuples")
+    if len([l for l in walk_own(wf.node) if isinstance(l, ast.For) and "cigartuples" in norm(l.iter)]) > 1:
+        raise AnalysisError("R12.2", wf.where(oploop), "the aligner's CIGAR tuples are walked by more than one loop: the tallies and the spelling are not read from one dispatch")
     tup_src = norm(oploop.iter).split(".cigartuples")[0]
     # emitted string source
     emits = [s for s in walk_own(wf.node) if isinstance(s, ast.Assign) and isinstance(s.targets[0], ast.Subscript) and const_value(s.targets[0].slice) == "cg:Z:"]
@@ -357,7 +359,8 @@ def r12_3(ctx, m, schema, extras):
     loop = [n for n in wf.node.body if isinstance(n, ast.For)][0]
     rec = norm(loop.target.elts[0])
     P = {c: a for a, c in schema.items()}
-    guard = loop.body[0] if loop.body and isinstance(loop.body[0], ast.If) else None
+    lead = [st for st in loop.body if not (isinstance(st, ast.Assign) and len(st.targets) == 1 and isinstance(st.targets[0], ast.Name) and not any(isinstance(x, ast.Call) and not (isinstance(x.func, ast.Name) and x.func.id in ("len", "int", "float", "abs")) for x in ast.walk(st.value)))]
+    guard = lead[0] if lead and isinstance(lead[0], ast.If) else None  # (leading pure temporaries are skipped)
     if guard is None:
         raise AnalysisError("R12.3", wf.where(loop), "cannot find the length guard")
     t = guard.test
